@@ -69,6 +69,9 @@ func main() {
 	if bad {
 		os.Exit(2)
 	}
+	for _, p := range ps {
+		instrumentedPkgs[p.PkgPath] = true
+	}
 	constMap := map[string]string{}
 	for _, c := range consts {
 		kv := strings.SplitN(c, "=", 2)
@@ -798,6 +801,52 @@ type fieldAccess struct {
 	expr  ast.Expr // addressable expression x.f
 	write bool
 	loc   string
+	kind  int // 0: address of expr; 1: element (address computed under recover); 2: append target; 3: first element of a slice
+}
+
+// hasCall reports whether evaluating e could have side effects (calls, receives, function literals).
+func hasCall(e ast.Expr) bool {
+	found := false
+	ast.Inspect(e, func(n ast.Node) bool {
+		switch x := n.(type) {
+		case *ast.CallExpr, *ast.FuncLit:
+			found = true
+		case *ast.UnaryExpr:
+			if x.Op == token.ARROW {
+				found = true
+			}
+		}
+		return !found
+	})
+	return found
+}
+
+func (r *rewriter) exprText(e ast.Expr) string {
+	var buf bytes.Buffer
+	format.Node(&buf, r.fset, e)
+	t := buf.String()
+	if len(t) > 40 {
+		t = t[:40]
+	}
+	return t
+}
+
+// sliceOrArray reports whether t is a slice, an array or a pointer to an array.
+func sliceOrArray(t types.Type) (isSlice, ok bool) {
+	if t == nil {
+		return false, false
+	}
+	switch u := t.Underlying().(type) {
+	case *types.Slice:
+		return true, true
+	case *types.Array:
+		return false, true
+	case *types.Pointer:
+		if _, isArr := u.Elem().Underlying().(*types.Array); isArr {
+			return false, true
+		}
+	}
+	return false, false
 }
 
 func (r *rewriter) ownPkg(p *types.Package) bool {
@@ -917,6 +966,45 @@ func (r *rewriter) varLoc(id *ast.Ident) (string, bool) {
 	return "", false
 }
 
+// calleeInstrumented reports whether the called function belongs to an instrumented package (its body records its
+// own accesses), or is a builtin / conversion.
+func (r *rewriter) calleeInstrumented(c *ast.CallExpr) bool {
+	if tv, ok := r.info.Types[c.Fun]; ok && (tv.IsType() || tv.IsBuiltin()) {
+		return true
+	}
+	var obj types.Object
+	switch f := c.Fun.(type) {
+	case *ast.Ident:
+		obj = r.info.Uses[f]
+	case *ast.SelectorExpr:
+		if sel, ok := r.info.Selections[f]; ok {
+			obj = sel.Obj()
+			if _, isIface := sel.Recv().Underlying().(*types.Interface); isIface {
+				return false // dynamic callee: may be anything
+			}
+		} else {
+			obj = r.info.Uses[f.Sel]
+		}
+	}
+	if fn, ok := obj.(*types.Func); ok {
+		return instrumentedPkgs[pkgPathOf(fn)]
+	}
+	return true // function values, closures: bodies in this package are instrumented
+}
+
+func pkgPathOf(fn *types.Func) string {
+	if fn.Pkg() == nil {
+		return ""
+	}
+	return fn.Pkg().Path()
+}
+
+// synthetic marks the function literals inserted by the access pass (never instrumented themselves).
+var synthetic = map[*ast.FuncLit]bool{}
+
+// instrumentedPkgs is the set of package paths being rewritten in this run.
+var instrumentedPkgs = map[string]bool{}
+
 func (r *rewriter) collect(n ast.Node, write bool, out *[]fieldAccess) {
 	if n == nil {
 		return
@@ -951,10 +1039,44 @@ func (r *rewriter) collect(n ast.Node, write bool, out *[]fieldAccess) {
 				return
 			}
 		}
+		if isSlice, ok := sliceOrArray(r.typeOf(x.X)); ok && !hasCall(x) && (isSlice || r.addressable(x.X) && !r.localOnly(x.X)) {
+			// an element of a slice or of a shared array: its own location (the address is computed a second time, under recover)
+			if tv, isType := r.info.Types[x.X]; !isType || !tv.IsType() {
+				*out = append(*out, fieldAccess{expr: x, write: write, loc: "elem " + r.exprText(x.X) + "[]", kind: 1})
+			}
+		}
 		r.collect(x.X, false, out)
 		r.collect(x.Index, false, out)
 		return
 	case *ast.CallExpr:
+		if id, ok := x.Fun.(*ast.Ident); ok && r.isBuiltin(id, "append") && len(x.Args) >= 1 && !hasCall(x.Args[0]) {
+			if _, isSl := r.typeOf(x.Args[0]).Underlying().(*types.Slice); isSl {
+				*out = append(*out, fieldAccess{expr: x.Args[0], write: true, loc: "append " + r.exprText(x.Args[0]), kind: 2})
+			}
+		}
+		if id, ok := x.Fun.(*ast.Ident); ok && r.isBuiltin(id, "copy") && len(x.Args) == 2 {
+			for i, a := range x.Args {
+				if t := r.typeOf(a); t != nil && !hasCall(a) {
+					if _, isSl := t.Underlying().(*types.Slice); isSl {
+						*out = append(*out, fieldAccess{expr: a, write: i == 0, loc: "copy " + r.exprText(a), kind: 3})
+					}
+				}
+			}
+		}
+		// byte slices handed to code that is not instrumented (hashing, signing, encoding): a read of their content
+		if !r.calleeInstrumented(x) {
+			for _, a := range x.Args {
+				if t := r.typeOf(a); t != nil && !hasCall(a) {
+					if sl, isSl := t.Underlying().(*types.Slice); isSl {
+						if b, isB := sl.Elem().Underlying().(*types.Basic); isB && b.Kind() == types.Byte {
+							if _, isLit := a.(*ast.CompositeLit); !isLit {
+								*out = append(*out, fieldAccess{expr: a, write: false, loc: "bytes " + r.exprText(a), kind: 3})
+							}
+						}
+					}
+				}
+			}
+		}
 		// value-receiver method called through a pointer / addressable struct copies the whole struct
 		if se, ok := x.Fun.(*ast.SelectorExpr); ok {
 			if sel, ok := r.info.Selections[se]; ok && sel.Kind() == types.MethodVal {
@@ -1106,6 +1228,9 @@ func (r *rewriter) stmtAccesses(s ast.Stmt) []fieldAccess {
 // instrumentAccesses inserts vsched.Access calls in front of every statement of every block.
 func (r *rewriter) instrumentAccesses(root ast.Node) {
 	ast.Inspect(root, func(n ast.Node) bool {
+		if fl, ok := n.(*ast.FuncLit); ok && synthetic[fl] {
+			return false // a closure this pass has inserted
+		}
 		var list *[]ast.Stmt
 		switch x := n.(type) {
 		case *ast.BlockStmt:
@@ -1124,7 +1249,7 @@ func (r *rewriter) instrumentAccesses(root ast.Node) {
 			for _, a := range r.stmtAccesses(s) {
 				var buf bytes.Buffer
 				format.Node(&buf, r.fset, a.expr)
-				k := fmt.Sprintf("%s/%v", buf.String(), a.write)
+				k := fmt.Sprintf("%s/%v/%d", buf.String(), a.write, a.kind)
 				if seen[k] {
 					continue
 				}
@@ -1133,13 +1258,29 @@ func (r *rewriter) instrumentAccesses(root ast.Node) {
 				if a.write {
 					w = "true"
 				}
-				r.needU = true
+				if a.kind == 0 || a.kind == 1 {
+					r.needU = true
+				}
+				r.needV = true
 				r.stats["access"]++
-				call := call(r.vs("Access"),
-					call(sel("unsafe", "Pointer"), &ast.UnaryExpr{Op: token.AND, X: a.expr}),
-					ast.NewIdent(w), &ast.BasicLit{Kind: token.STRING, Value: strconv.Quote(a.loc)},
-					&ast.BasicLit{Kind: token.STRING, Value: strconv.Quote(r.pkg.Name + "." + r.curFunc())})
-				out = append(out, &ast.ExprStmt{X: call})
+				locLit := &ast.BasicLit{Kind: token.STRING, Value: strconv.Quote(a.loc)}
+				siteLit := &ast.BasicLit{Kind: token.STRING, Value: strconv.Quote(r.pkg.Name + "." + r.curFunc())}
+				ptr := call(sel("unsafe", "Pointer"), &ast.UnaryExpr{Op: token.AND, X: a.expr})
+				var c *ast.CallExpr
+				switch a.kind {
+				case 1:
+					fn := &ast.FuncLit{Type: &ast.FuncType{Params: &ast.FieldList{}, Results: &ast.FieldList{List: []*ast.Field{{Type: sel("unsafe", "Pointer")}}}},
+						Body: &ast.BlockStmt{List: []ast.Stmt{&ast.ReturnStmt{Results: []ast.Expr{ptr}}}}}
+					synthetic[fn] = true
+					c = call(r.vs("AccessElem"), fn, ast.NewIdent(w), locLit, siteLit)
+				case 2:
+					c = call(r.vs("AccessAppend"), a.expr, locLit, siteLit)
+				case 3:
+					c = call(r.vs("AccessSlice"), a.expr, ast.NewIdent(w), locLit, siteLit)
+				default:
+					c = call(r.vs("Access"), ptr, ast.NewIdent(w), locLit, siteLit)
+				}
+				out = append(out, &ast.ExprStmt{X: c})
 			}
 			out = append(out, s)
 		}
